@@ -1,9 +1,8 @@
 (* SoilTempProofs.v — property C19 over the reals: the explicit scheme of hermes.Soiltemp is a convex
    combination in every interior layer as long as the diffusion number r = alpha*DT/24/DZ^2 lies in
    [0, 1/2]; hence layer temperatures stay in the envelope of the boundary values.  The diffusion
-   number bound is derived from the bulk density range; below 0.567 g/cm3 it is refuted (F17). *)
+   number bound is derived from the bulk density range; below (567 / 1000) g/cm3 it is refuted (F17). *)
 From Coq Require Import ZArith Reals List Bool Lra Lia Psatz.
-From Interval Require Import Tactic.
 From Hermes Require Import Num RUtil SoilTempModel.
 Import ListNotations.
 Local Open Scope R_scope.
@@ -157,7 +156,7 @@ Proof.
   induction days as [|d rest IH]; intros t0 tbase lo hi Hd Ht Hb Hs; cbn [run fst snd] in *; [exact Ht|].
   inversion Hd as [|? ? [Ha Hbase] Hrest]; subst.
   destruct (run rest (o_tsoil0 (soiltemp_day d t0))) as [tf ss] eqn:E. cbn [fst snd] in *.
-  inversion Hs as [|? ? Hs0 Hss]; subst.
+  unfold within in Hs. pose proof (Forall_inv Hs) as Hs0. pose proof (Forall_inv_tail Hs) as Hss.
   destruct (day_envelope_lemma d t0 lo hi Ha Ht Hb Hs0) as (_ & H0 & _).
   specialize (IH (o_tsoil0 (soiltemp_day d t0)) (d_tbase d) lo hi Hrest H0 Hb).
   rewrite E in IH. cbn [fst snd] in IH. auto.
@@ -198,7 +197,7 @@ Qed.
 (* the diffusion number                                                 *)
 
 Definition admissible (l : layer R) : Prop :=
-  0.567 <= l_bd l <= 2.3 /\ 0 <= l_hum l /\ 0 <= l_wg l /\ 0 <= l_ex l <= 1.
+  (567 / 1000) <= l_bd l <= (23 / 10) /\ 0 <= l_hum l /\ 0 <= l_wg l /\ 0 <= l_ex l <= 1.
 
 Lemma div_le_of_le_mul a b c : 0 < c -> a <= b * c -> a / c <= b.
 Proof.
@@ -208,7 +207,7 @@ Qed.
 (* DT = 1 day, DZ = 10 cm as everywhere in Hermes2Go *)
 Lemma diffusion_number_lemma : forall l : layer R, admissible l ->
   let r := rnum 1 (10 * 10) (alpha_of 1 l) in
-  0 <= r /\ r <= 0.6 - 0.34 / l_bd l /\ r < 1 / 2.
+  0 <= r /\ r <= (6 / 10) - (34 / 100) / l_bd l /\ r < 1 / 2.
 Proof.
   intros [bd wg hum pw ex] (Hbd & Hh & Hw & He). cbn [l_bd l_wg l_hum l_pw l_ex] in *.
   cbv zeta. unfold rnum, alpha_of, heatcond, heatcap. cbn [l_bd l_wg l_hum l_pw l_ex]. decs.
@@ -231,22 +230,22 @@ Proof.
   assert (Hdenpos : 0 < den) by lra.
   replace (A / D * 86400 * 1 * (4189 / 1000) / C * 1 / 24 / (10 * 10)) with (num / den)
     by (unfold num, den; field; lra).
-  assert (Hx : 0 <= 0.6 - 0.34 / bd).
-  { assert (0.34 / bd <= 0.6); [|lra]. apply div_le_of_le_mul; lra. }
+  assert (Hx : 0 <= (6 / 10) - (34 / 100) / bd).
+  { assert ((34 / 100) / bd <= (6 / 10)); [|lra]. apply div_le_of_le_mul; lra. }
   split; [|split].
   - apply Rmult_le_pos; [unfold num; nra | left; apply Rinv_0_lt_compat; auto].
   - apply div_le_of_le_mul; auto.
-    apply Rle_trans with ((0.6 - 0.34 / bd) * (4189 / 1000 * (18 / 100) * bd * 2400)).
+    apply Rle_trans with (((6 / 10) - (34 / 100) / bd) * (4189 / 1000 * (18 / 100) * bd * 2400)).
     + right. unfold num, A. field. lra.
     + apply Rmult_le_compat_l; auto.
-  - apply Rle_lt_trans with (0.6 - 0.34 / bd).
+  - apply Rle_lt_trans with ((6 / 10) - (34 / 100) / bd).
     + apply div_le_of_le_mul; auto.
-      apply Rle_trans with ((0.6 - 0.34 / bd) * (4189 / 1000 * (18 / 100) * bd * 2400)).
+      apply Rle_trans with (((6 / 10) - (34 / 100) / bd) * (4189 / 1000 * (18 / 100) * bd * 2400)).
       * right. unfold num, A. field. lra.
       * apply Rmult_le_compat_l; auto.
-    + assert (0.34 / 2.3 <= 0.34 / bd); [|lra].
+    + assert ((34 / 100) / (23 / 10) <= (34 / 100) / bd); [|lra].
       apply div_le_of_le_mul; [lra|]. unfold Rdiv. rewrite Rmult_assoc.
-      assert (1 <= / bd * 2.3); [|nra].
+      assert (1 <= / bd * (23 / 10)); [|nra].
       replace 1 with (/ bd * bd) by (field; lra). apply Rmult_le_compat_l; [left; apply Rinv_0_lt_compat|]; lra.
 Qed.
 
@@ -258,15 +257,15 @@ Proof.
   cbv zeta in *. lra.
 Qed.
 
-(* F17: below 0.567 g/cm3 the conductivity factor 3*BD - 1.7 is negative: the scheme anti-diffuses *)
+(* F17: below (567 / 1000) g/cm3 the conductivity factor 3*BD - 1.7 is negative: the scheme anti-diffuses *)
 Lemma diffusion_number_refuted_lemma :
   exists l : layer R, 0 < l_bd l /\ 0 <= l_hum l /\ 0 <= l_wg l /\ 0 <= l_ex l <= 1 /\
     rnum 1 (10 * 10) (alpha_of 1 l) < 0.
 Proof.
-  exists {| l_bd := 0.3; l_wg := 0.3; l_hum := 0; l_pw := 1; l_ex := 0 |}.
+  exists {| l_bd := 3 / 10; l_wg := 3 / 10; l_hum := 0; l_pw := 1; l_ex := 0 |}.
   cbn [l_bd l_wg l_hum l_pw l_ex]. repeat split; try lra.
   unfold rnum, alpha_of, heatcond, heatcap. cbn [l_bd l_wg l_hum l_pw l_ex]. decs.
-  interval.
+  lra.
 Qed.
 
 (* with the anti-diffusive coefficient one hourly step already leaves the envelope of its inputs *)
@@ -286,11 +285,35 @@ Lemma surface_value_lemma : forall radiat tmin tmax t00 : R, tmin <= tmax ->
   (833 < radiat -> v = (1 - 31 / 100) * (tmin + (tmax - tmin) * s) + 31 / 100 * t00 /\
                    Rmin tmin t00 <= v /\ (s <= 1 -> v <= Rmax tmax t00)).
 Proof.
-  intros radiat tmin tmax t00 Hm s v. subst v. unfold surface, ALBEDO. decs. split; intros Hr.
-  - destruct (gtbR_false radiat 833) as [_ H]. rewrite (H Hr). split; lra.
-  - destruct (gtbR radiat 833) as [_ H]. rewrite (H Hr). fold s. split; [reflexivity|].
+  intros radiat tmin tmax t00 Hm s v. subst v. unfold surface, gtb. split; intros Hr.
+  - assert (E : @ltb R RNum (ofZ 833) radiat = false) by (apply ltbR_false; rsimp; lra).
+    rewrite E. rsimp. split; lra.
+  - assert (E : @ltb R RNum (ofZ 833) radiat = true) by (apply ltbR; rsimp; lra).
+    rewrite E. unfold ALBEDO. decs. cbn [sqrtv RNum]. fold s. split; [reflexivity|].
     assert (Hs : 0 <= s) by apply sqrt_pos.
     pose proof (Rmin_l tmin t00). pose proof (Rmin_r tmin t00).
     pose proof (Rmax_l tmax t00). pose proof (Rmax_r tmax t00).
-    split; [|intros Hs1]; nra.
+    assert (0 <= (tmax - tmin) * s) by (apply Rmult_le_pos; lra).
+    clearbody s. split; [|intros Hs1]; nra.
+Qed.
+
+(* ---- the whole statement: from Init's profile, admissible soil on every day ---- *)
+Definition day_admissible (tbase : R) (d : day_in R) : Prop :=
+  d_dt d = 1 /\ d_dz d = 10 /\ d_tbase d = tbase /\ Forall admissible (d_layers d).
+
+Lemma run_envelope_admissible_lemma : forall (days : list (day_in R)) (tmin tmax tbase lo hi : R) (n : nat),
+  (1 <= n)%nat -> Forall (day_admissible tbase) days ->
+  let t0 := init_profile tmin tmax tbase n in
+  lo <= (tmin + tmax) / 2 <= hi -> lo <= tbase <= hi ->
+  within lo hi (snd (run days t0)) ->
+  within lo hi (fst (run days t0)).
+Proof.
+  intros days tmin tmax tbase lo hi n Hn Hd t0 H0 Hb Hs.
+  apply run_envelope_lemma with tbase; auto.
+  - eapply Forall_impl; [|exact Hd]. intros d (Hdt & Hdz & Htb & Hl). split; auto.
+    apply admissible_alphas_ok; auto.
+  - pose proof (init_envelope_lemma tmin tmax tbase n Hn) as Hi. cbv zeta in Hi.
+    eapply Forall_impl; [|exact Hi]. cbn beta. intros x [Hx1 Hx2]. split.
+    + eapply Rle_trans; [|exact Hx1]. apply Rmin_glb; lra.
+    + eapply Rle_trans; [exact Hx2|]. apply Rmax_lub; lra.
 Qed.
